@@ -158,7 +158,10 @@ def variables_of(t, acc=None):
     return acc
 
 
-def ob_formula(tree, label, arrays=False, engine_vars=False, reuse=False):
+def ob_formula(tree, label, arrays=False, engine_vars=False, reuse=False, attach=False):
+    """attach: the Function is built with its own variables and no engine, becomes a term of an engine through the Engine constructor
+    (which updates the term's engine reference), is evaluated, then moved to a second engine and evaluated again: the term's own
+    variables, the engine's variables and x all resolve each time"""
     """reuse: the Function object first holds and evaluates another formula with other variable values, then gets this formula through
     its attributes (`formula`, `load()`, `variables`): what counts is the current formula and the current variables"""
     def run(ob):
@@ -189,6 +192,16 @@ def ob_formula(tree, label, arrays=False, engine_vars=False, reuse=False):
                               "xv = env.pop('x') if 'x' in env else 0.0",
                               f"f = fl.Function.create('f', {text!r}, e); f.variables = dict(env)", "got = f.membership(xv)",
                               "env.update({'X': e.input_variable('X').value, 'O': e.output_variable('O').value, 'x': xv})"]
+                elif attach:
+                    lines += ["X, O, xv = env.pop('X', 0.0), env.pop('O', 0.0), env.pop('x', 0.0)",
+                              f"f = fl.Function('f', {text!r}, variables=dict(env))",
+                              "def engine_with(term):",
+                              "    e = fl.Engine('e', '', [fl.InputVariable('X', minimum=0, maximum=1)], [fl.OutputVariable('O', minimum=0, maximum=1, terms=[term])], [])",
+                              "    e.input_variable('X').value = X; e.output_variable('O').value = O; return e",
+                              "e1 = engine_with(f); first = f.membership(xv)",
+                              "e2 = engine_with(fl.Constant('k', 0.0)); e2.output_variable('O').terms.append(f); f.update_reference(e2); got = f.membership(xv)",
+                              "env.update({'X': X, 'O': O, 'x': xv})",
+                              "if not same(np.asarray(first, dtype=float), np.asarray(EVAL(tree, env), dtype=float), 1e-9): verdict(True, 'as a term of its first engine: %r' % (first,))"]
                 elif reuse:
                     lines += ["f = fl.Function.create('f', 'a * 2 + b'); f.variables = {'a': 0.5, 'b': 0.25, 'c': 4.0}; f.membership(0.0)",
                               f"f.formula = {text!r}; f.load(); f.variables.clear(); f.variables.update(env)", "got = f.membership(0.0)"]
@@ -212,6 +225,23 @@ def ob_formula(tree, label, arrays=False, engine_vars=False, reuse=False):
                     f = fl.Function.create("f", text, e)
                     f.variables = {k: v for k, v in env.items() if k not in ("X", "O", "x")}
                     got = f.membership(env.get("x", 0.0))
+                elif attach:
+                    own = {k: v for k, v in env.items() if k not in ("X", "O", "x")}
+                    f = fl.Function("f", text, variables=dict(own))
+
+                    def engine_with(term):
+                        e = fl.Engine("e", "", [fl.InputVariable("X", minimum=0, maximum=1)], [fl.OutputVariable("O", minimum=0, maximum=1, terms=[term])], [])
+                        e.input_variable("X").value = env.get("X", 0.0)
+                        e.output_variable("O").value = env.get("O", 0.0)
+                        return e
+
+                    engine_with(f)
+                    first = f.membership(env.get("x", 0.0))
+                    e2 = engine_with(fl.Constant("k", 0.0))
+                    e2.output_variable("O").terms.append(f)
+                    f.update_reference(e2)
+                    got = f.membership(env.get("x", 0.0))
+                    got = (first, got)
                 elif reuse:
                     f = fl.Function.create("f", "a * 2 + b")
                     f.variables = {"a": core.const(0.5), "b": core.const(0.25), "c": core.const(4.0)}
@@ -237,6 +267,10 @@ def ob_formula(tree, label, arrays=False, engine_vars=False, reuse=False):
                     continue
                 got, exp, exp_pf, assume = p.result
                 pre_p = pre + assume
+                if attach:
+                    first, got = got
+                    fe, ee0 = elements(first), elements(exp)
+                    ob.prove(pre_p, p, z3.And(len(fe) == len(ee0), *[same(tf(x), tf(y)) for x, y in zip(fe, ee0)]), f"{lab}/first-engine: {text}", ins, rp)
                 ge, ee, pe = elements(got), elements(exp), elements(exp_pf)
                 if len(ge) != len(ee) or len(pe) != len(ee):
                     ob.prove(pre, p, False, f"{lab}: {text!r} gives {len(ge)} values, documented {len(ee)}", ins, rp)
@@ -310,6 +344,7 @@ def families(tier, seed):
     out.append(("indicators/product-arrays", ("bin", "*", ("call", "neq", [a, b]), ("bin", "+", ("call", "lt", [a, L(0.5)]), ("call", "gt", [b, a]))), {"arrays": True}))
     # variable resolution: engine input X, output O, own variable a, and x
     out.append(("variables/engine", ("bin", "+", ("bin", "*", V("X"), L(2)), ("bin", "-", ("bin", "/", V("O"), V("a")), V("x"))), {"engine_vars": True}))
+    out.append(("variables/attached-through-engine-constructor", ("bin", "-", ("bin", "+", V("X"), ("bin", "*", V("a"), ("bin", "^", V("x"), L(2)))), ("bin", "/", ("call", "max", [V("b"), V("O")]), L(4))), {"attach": True}))
     out.append(("variables/engine-arrays", ("bin", "-", ("bin", "*", V("X"), V("x")), V("a")), {"engine_vars": True, "arrays": True}))
     # arrays for operators
     for o in BIN_OPS:
